@@ -7,7 +7,9 @@ import (
 )
 
 func implXO(f []string, o *oracleSink) string {
-	return fmt.Sprint(lz4.VerifChecksumZero(unhx(f[1])))
+	v := lz4.VerifChecksumZero(unhx(f[1]))
+	o.ask("xxh", "SX "+f[1], fmt.Sprint(v))
+	return fmt.Sprint(v)
 }
 
 func implXS(f []string, o *oracleSink) string {
@@ -21,6 +23,11 @@ func implXS(f []string, o *oracleSink) string {
 	if len(b) != 5 || b[0] != 9 || uint32(b[1])|uint32(b[2])<<8|uint32(b[3])<<16|uint32(b[4])<<24 != a || x.Sum32() != a {
 		return fmt.Sprintf("%d SUM-MISMATCH", a)
 	}
+	var all []byte
+	for _, c := range f[1:] {
+		all = append(all, unhx(c)...)
+	}
+	o.ask("xxh", "SX "+hx(all), fmt.Sprint(a))
 	return fmt.Sprint(a)
 }
 
